@@ -162,6 +162,17 @@ func runC16(c *mon.Ctx) {
 		var page, docBytes []byte
 		var err error
 		endpoint := sp.IdentityProviderSSOURL
+		// the IdP endpoints are re-configured (metadata refresh) between building the document and rendering the form:
+		// the form goes to the endpoint configured when it is rendered, whatever the document says
+		rotate := func(slo bool) {
+			if r.IntN(4) == 0 {
+				sp.IdentityProviderSSOURL, sp.IdentityProviderSLOURL = "https://idp-new.example.test/sso", "https://idp-new.example.test/slo?v=2"
+			}
+			endpoint = sp.IdentityProviderSSOURL
+			if slo {
+				endpoint = sp.IdentityProviderSLOURL
+			}
+		}
 		pv, stack := mon.Guard(func() {
 			var doc *etree.Document
 			switch kind {
@@ -177,6 +188,7 @@ func runC16(c *mon.Ctx) {
 					doc, err = sp.BuildAuthRequestDocumentNoSig()
 				}
 				if err == nil {
+					rotate(false)
 					page, err = sp.BuildAuthBodyPostFromDocument(relay, doc)
 				}
 			case "logoutreq":
@@ -190,6 +202,7 @@ func runC16(c *mon.Ctx) {
 					doc, err = sp.BuildLogoutRequestDocumentNoSig("user", "_s")
 				}
 				if err == nil {
+					rotate(true)
 					page, err = sp.BuildLogoutBodyPostFromDocument(relay, doc)
 				}
 			case "logoutresp":
@@ -203,6 +216,7 @@ func runC16(c *mon.Ctx) {
 					doc, err = sp.BuildLogoutResponseDocumentNoSig("urn:oasis:names:tc:SAML:2.0:status:Success", "_req")
 				}
 				if err == nil {
+					rotate(true)
 					page, err = sp.BuildLogoutResponseBodyPostFromDocument(relay, doc)
 				}
 			}
